@@ -1,3 +1,29 @@
-(* Engine entry points for C01: run_c01 sub-op case.  (stub until the property's model exists) *)
-From Pan Require Import Base.Common Base.Sx.
-Definition run_c01 (sub : Z) (x : sx) : sx := SL [SZ (-1)].
+(* Engine entry points for the pipeline (C01, C02, C09-C12). *)
+From Pan Require Import Base.Common Base.Sx Model.MetricTable Model.Metrics Model.EdgeCase Model.Result Model.Matcher
+  Model.Relabel Model.Pipeline Run.Codec Run.R14.
+
+Definition dec_metrics (s : sx) : list metric := map (fun e => metric_of_Z (sZ e)) (sL s).
+(* cfg = (matcher mmetric mthr ems dm dthr handler) *)
+Definition dec_cfg (s : sx) : cfg :=
+  {| c_matcher := sZ (sNth 0 s); c_mmetric := metric_of_Z (sZ (sNth 1 s)); c_mthr := sQ (sNth 2 s);
+     c_ems := dec_metrics (sNth 3 s); c_dm := sMetricOpt (sNth 4 s); c_dthr := sQOpt (sNth 5 s);
+     c_handler := dec_handler (sNth 6 s) |}.
+(* ext = (inst-table pair-table union-table): ((metric label q)...) ((ref pred q)...) ((ref (labels) q)...) *)
+Definition dec_ext (s : sx) : ext :=
+  let it := map (fun e => (sZ (sNth 0 e), sZ (sNth 1 e), sQ (sNth 2 e))) (sL (sNth 0 s)) in
+  let pt := map (fun e => (sZ (sNth 0 e), sZ (sNth 1 e), sQ (sNth 2 e))) (sL (sNth 1 s)) in
+  {| x_inst := fun m l => match find (fun e => (fst (fst e) =? Z_of_metric m) && (snd (fst e) =? l)) it with
+                          | Some e => snd e | None => (-7 # 1)%Q end;
+     x_pair := fun rp => match find (fun e => (fst (fst e) =? fst rp) && (snd (fst e) =? snd rp)) pt with
+                         | Some e => snd e | None => (-7 # 1)%Q end;
+     x_union := table_su (dec_tbl (sNth 2 s)) |}.
+Definition dec_arr (s : sx) : arr2 := map sZZ (sL s).
+
+(* sub 1: (cfg ext arr2) -> result *)
+Definition run_pipeline (x : sx) : sx :=
+  ofRes enc_result (pipeline (dec_ext (sNth 1 x)) (dec_cfg (sNth 0 x)) (dec_arr (sNth 2 x))).
+(* sub 2: (cfg ext arr2) -> relabelled prediction after matching *)
+Definition run_match_phase (x : sx) : sx :=
+  ofRes (fun a => SL (map (fun v => SZ (snd v)) a)) (match_phase (dec_ext (sNth 1 x)) (dec_cfg (sNth 0 x)) (dec_arr (sNth 2 x))).
+Definition run_c01 (sub : Z) (x : sx) : sx :=
+  if sub =? 1 then run_pipeline x else if sub =? 2 then run_match_phase x else SL [SZ (-1)].
